@@ -41,6 +41,31 @@ checks = {
          "all interleavings (no preemption bound) of 2 clients x op lists <=3 and 3 clients x op lists <=2 over {acquire, renew, release} with live/born-expired TTLs, on the real s3.Leaser against an in-memory conditional-write store",
          "the in-memory store's conditional-write semantics (ETag counter, If-Match / If-None-Match:*, 412, NoSuchKey) are an assumption about S3; expiry is decided by TTL sign, not by a clock hook",
          "DESIGN.md §3 C20"),
+ "C02": (E1, "model_checking",
+         "explicit-state search over transaction-biased operation histories; every TXID restored and matched against a ledger of committed source states",
+         "bounded exhaustive exploration of histories with multi-statement transactions (spilled uncommitted frames), rollbacks, chunked syncs, snapshots and compactions; every TXID 1..max restores to one committed state, in order; level-0 gapless from 1",
+         "histories quantifier only in this check (schedules quantifier: see C12's schedule exploration); ledger computed by an independent from-spec WAL decoder after every operation",
+         "DESIGN.md §3 C02"),
+ "C06": (E1, "model_checking",
+         "explicit-state search over histories with Compact(level)/Snapshot; differential oracle against a reference fold of archived level-0 files",
+         "bounded exhaustive exploration for level layouts 1,2,3,8: every compacted file equals the fold of the level-0 files it covers (pages, size, timestamp), levels contiguous, every TXID restores to fold(1..n) whatever the mix of levels",
+         "no storage faults and no snapshot retention in these histories; reference fold decodes archived files with the ltx library (trusted base)",
+         "DESIGN.md §3 C06"),
+ "C07": (E1, "model_checking",
+         "explicit-state search over histories with retention passes plus an exhaustive fan-out over {old,young} age assignments at the end of every history",
+         "bounded exhaustive exploration; after every age assignment x retention pass x RetentionEnabled: latest restorable and equal to the source, a snapshot remains, level-0 one run, delegated retention leaves the remote untouched; the next SyncAndWait works",
+         "ages set by Chtimes relative to a 1h threshold; fan-out runs the real retention code of a fresh DB object on copies of the replica/local trees",
+         "DESIGN.md §3 C07"),
+ "C09": (E5, "exploration",
+         "exhaustive mutation enumeration of real SQLite WALs (every truncation, every bit flip, frame dup/swap/edit/splice, both byte orders) x start offsets x byte budgets against a from-spec decoder validated against real SQLite recovery",
+         "every mutated image is decoded by litestream's WALReader and by an independent reference; composition law for chunked reads; reference cross-validated against SQLite recovery",
+         "SQLite cross-validation is budgeted (sqlite_validation_exhaustive reported); offset reads trust the previous frame's stored checksum, as the code documents",
+         "DESIGN.md §3 C09"),
+ "C19": (E5, "exploration",
+         "exhaustive enumeration of legacy 0.3.x layouts generated from real histories (segment splits, snapshot placements, single removals, timestamps, mixed formats) against the generating history's ledger",
+         "every layout x removal x timestamp is restored with the real code and compared byte-for-byte with the expected state (or an error is required)",
+         "segments end at transaction boundaries; equal-size transactions force offset collisions; up to 2 generations x 3 indexes",
+         "DESIGN.md §3 C19"),
  "C13": (E1, "model_checking",
          "explicit-state search over write/sync histories followed by 10 idle syncs, over a covering set of checkpoint configurations",
          "bounded exhaustive exploration of write/sync histories per configuration; oracle: live WAL generation below lowest threshold+1 after every successful sync, idle phase goes silent",
